@@ -1084,20 +1084,43 @@ func (ndb *nodeDB) traverse(fn func(key, value []byte) error) error {
 
 // Traverse all keys between a given range (excluding end) and return error if any, nil otherwise
 func (ndb *nodeDB) traverseRange(start []byte, end []byte, fn func(k, v []byte) error) error {
-	itr, err := ndb.db.Iterator(start, end)
-	if err != nil {
-		return err
-	}
-	defer itr.Close()
-
-	for ; itr.Valid(); itr.Next() {
-		if err := fn(itr.Key(), itr.Value()); err != nil {
+	// fn deletes through the batch, which is written to the store whenever it exceeds the flush
+	// threshold. The store contract forbids writes while an iterator is open (MemDB blocks them
+	// for good), so the range is read in bounded chunks and fn runs once the iterator is closed.
+	type pair struct{ k, v []byte }
+	pairs := make([]pair, 0, traverseRangeChunk)
+	for {
+		pairs = pairs[:0]
+		itr, err := ndb.db.Iterator(start, end)
+		if err != nil {
 			return err
 		}
-	}
+		for ; itr.Valid() && len(pairs) < traverseRangeChunk; itr.Next() {
+			pairs = append(pairs, pair{append([]byte{}, itr.Key()...), append([]byte{}, itr.Value()...)})
+		}
+		if err := itr.Error(); err != nil {
+			itr.Close()
+			return err
+		}
+		if err := itr.Close(); err != nil {
+			return err
+		}
 
-	return itr.Error()
+		for _, p := range pairs {
+			if err := fn(p.k, p.v); err != nil {
+				return err
+			}
+		}
+		if len(pairs) < traverseRangeChunk {
+			return nil
+		}
+		// continue right after the last key that was handed to fn
+		start = append(pairs[len(pairs)-1].k, 0)
+	}
 }
+
+// traverseRangeChunk is how many entries traverseRange reads before it closes its iterator.
+const traverseRangeChunk = 1024
 
 // Traverse all keys with a certain prefix. Return error if any, nil otherwise
 func (ndb *nodeDB) traversePrefix(prefix []byte, fn func(k, v []byte) error) error {
